@@ -170,6 +170,16 @@ func c11Case(c *Ctx) *Result {
 		{{User: "u1", Password: "p1"}, {User: "u2", Password: "p2"}, {User: "longuser", Password: string(make([]byte, 0))}},
 	}
 	credSets[2][2].Password = "pw3"
+	// configured, but with entries no RFC 1929 client can present (in rotation):
+	// they are credentials all the same, and nothing may be served without one
+	degenerate := [][]socks5.Credential{
+		{{User: "u1", Password: ""}},
+		{{User: "", Password: "p1"}},
+		{{User: string(make([]byte, 300)), Password: "p1"}},
+		{{User: "u1", Password: string(make([]byte, 256))}, {User: "u2", Password: ""}},
+	}
+	credSets = append(credSets, degenerate[c.Idx%len(degenerate)])
+	const degenerateIdx = 3
 	n := simnet.New()
 	res := &Result{Obs: map[string]float64{}}
 	// each case covers a slice of the exhaustive method-list enumeration plus random long lists
@@ -205,7 +215,9 @@ func c11Case(c *Ctx) *Result {
 					valid      bool
 				}
 				pvs := []pv{{"none", "", "", 1, -1, false}}
-				if len(creds) > 0 {
+				if ci == degenerateIdx {
+					pvs = []pv{{"none", "", "", 1, -1, false}, {"wrong-user", "nobody", "x", 1, -1, false}, {"255-byte", string(make([]byte, 255)), string(make([]byte, 255)), 1, -1, false}}
+				} else if len(creds) > 0 {
 					k := r.Intn(len(creds))
 					pvs = []pv{
 						{"matching", creds[k].User, creds[k].Password, 1, -1, true},
